@@ -1231,7 +1231,7 @@ End Corollaries.
 Definition demo_blocks : Blocks :=
   {| b_P := Some [[1]]; b_c := Some [1]; b_A := None; b_b := None; b_G := None; b_h := None;
      b_lb := None; b_ub := None |}.
-Definition demo_setup (S : Settings) : res Solver := setup consts true 0 S 1 0 0 demo_blocks.
+Definition demo_setup (S : Settings) : res Solver := setup consts true false 0 S 1 0 0 demo_blocks.
 
 (* (status, iter, factor_retires, factorisation calls, refinement flag) after solve() *)
 Definition demo_solve (S : Settings) (fault : nat -> bool) : option (Status * Z * Z * nat * bool) :=
